@@ -159,14 +159,14 @@ Qed.
    buffers, and a result has exactly `size` bytes *)
 Definition unc_safe (unc : list Z -> Z -> Z -> bool -> res (list Z)) : Prop :=
   forall src size cap nil, bytes src -> len src < BIG -> 0 <= size ->
-    (nil = false -> size <= cap < BIG) -> (nil = true -> size = 0) ->
+    (nil = false -> size <= cap < BIG) -> (nil = true -> size = 0 /\ 0 <= cap) ->
     match unc src size cap nil with
     | Ok b => len b = size /\ bytes b | Err e => e = -1 | Oob => False | NoFuel => False end.
 
 (* the same contract with any condition capP on the capacity (zlib: none) *)
 Definition unc_safe_lim (capP : Z -> Prop) (unc : list Z -> Z -> Z -> bool -> res (list Z)) : Prop :=
   forall src size cap nil, bytes src -> len src < BIG -> 0 <= size ->
-    (nil = false -> size <= cap /\ capP cap) -> (nil = true -> size = 0) ->
+    (nil = false -> size <= cap /\ capP cap) -> (nil = true -> size = 0 /\ 0 <= cap) ->
     match unc src size cap nil with
     | Ok b => len b = size /\ bytes b | Err e => e = -1 | Oob => False | NoFuel => False end.
 
@@ -198,7 +198,7 @@ Proof.
   rewrite slice_ok by lia. cbn [bind].
   match goal with |- context [if ?X then _ else _] => destruct X end; [|reflexivity].
   split; [|exact Hob].
-  destruct nil; [rewrite Hdl, (Hnil eq_refl); reflexivity|lia].
+  destruct nil; [rewrite Hdl, (proj1 (Hnil eq_refl)); reflexivity|lia].
 Qed.
 
 Section Zlib.
@@ -208,7 +208,9 @@ Section Zlib.
 
   Theorem zlib_unc_safe_lim capP : unc_safe_lim capP (zlib_unc inflate).
   Proof.
-    intros src size cap nil _ _ _ _ _. unfold zlib_unc.
+    intros src size cap nil _ _ _ Hcap Hnil. unfold zlib_unc.
+    destruct (Z.ltb_spec cap size) as [Hlt|_].
+    { destruct nil; [destruct (Hnil eq_refl)|destruct (Hcap eq_refl)]; lia. }
     destruct (inflate src size) as [d|] eqn:E; [|reflexivity].
     destruct (Z.eqb_spec (len d) size); [|reflexivity]. split; [assumption|]. eapply inflate_bytes; eauto.
   Qed.
@@ -262,10 +264,17 @@ Definition decode_post (out : outdesc) (maxsz : Z) (r : res (Z * list Z)) : Prop
   | NoFuel => False
   end.
 
+(* sc_array_resize gives an owner `size` bytes only up to 2^63 (DecodeModel.owner_capacity) *)
+Definition OWNER_MAX : Z := 9223372036854775808.
+
+Lemma owner_capacity_id size : size <= OWNER_MAX -> owner_capacity size = size.
+Proof. unfold owner_capacity, OWNER_MAX. intros H. destruct (Z.ltb_spec 9223372036854775808 size); lia. Qed.
+
 (* general form: capP is the condition that the decompressor puts on the capacity of the destination *)
 Theorem decode_with_safe_lim (capP : Z -> Prop) unc data out maxsz :
   unc_safe_lim capP unc -> bytes data -> len data < BIG -> out_ok out -> 0 <= maxsz ->
   ((maxsz = 0 \/ hdr_size data <= maxsz) ->
+   (o_owner out = true -> hdr_size data <= OWNER_MAX) /\
    capP (if o_owner out then hdr_size data else o_cnt out * o_esz out)) ->
   decode_post out maxsz (sc_decode_with unc data out maxsz).
 Proof.
@@ -303,13 +312,16 @@ Proof.
   assert (Hsb : bytes src) by (apply bytes_firstn, bytes_skipn, Hcb).
   assert (Hsl : len src < BIG).
   { unfold src. rewrite len_firstn by (rewrite len_skipn; lia). unfold BIG. lia. }
-  set (cap := if o_owner out then size else o_cnt out * o_esz out).
+  set (cap := if o_owner out then owner_capacity size else o_cnt out * o_esz out).
   set (nil := o_owner out && (size =? 0)).
   specialize (Hunc src size cap nil Hsb Hsl ltac:(lia)).
   assert (G1 : nil = false -> size <= cap /\ capP cap).
-  { intros _. split; [|apply Halloc, Hmx']. unfold cap. destruct (o_owner out); [lia|]. now apply Hvw'. }
-  assert (G2 : nil = true -> size = 0).
-  { unfold nil. intros G. apply andb_true_iff in G. destruct G as [_ G]. now apply Z.eqb_eq in G. }
+  { intros _. destruct (Halloc Hmx') as [Ha1 Ha2]. unfold cap. destruct (o_owner out).
+    - rewrite owner_capacity_id by now apply Ha1. split; [lia|exact Ha2].
+    - split; [now apply Hvw'|exact Ha2]. }
+  assert (G2 : nil = true -> size = 0 /\ 0 <= cap).
+  { unfold nil, cap. intros G. apply andb_true_iff in G. destruct G as [Go G]. apply Z.eqb_eq in G.
+    rewrite Go, G. split; [reflexivity|]. rewrite owner_capacity_id by (unfold OWNER_MAX; lia). lia. }
   specialize (Hunc G1 G2).
   destruct (unc src size cap nil) as [b| | |]; cbn [bind]; auto.
   destruct Hunc as [Hlb Hbb].
@@ -324,7 +336,9 @@ Theorem decode_with_safe unc data out maxsz :
 Proof.
   intros Hunc Hb HE Hout Hmax Halloc.
   apply (decode_with_safe_lim (fun cap => cap < BIG)); auto; try (now apply unc_safe_is_lim).
-  intros Hm. destruct (o_owner out) eqn:Ho; [|apply Hout]. destruct (Halloc Ho); lia.
+  intros Hm. unfold OWNER_MAX. destruct (o_owner out) eqn:Ho.
+  - assert (hdr_size data < BIG) by (destruct (Halloc Ho); lia). unfold BIG in *. split; [intros _|]; lia.
+  - split; [discriminate|apply Hout].
 Qed.
 
 (* a view, or a maximum below BIG: no assumption on the environment *)
@@ -354,19 +368,36 @@ Corollary decode_safe_max data out maxsz :
   decode_post out maxsz (sc_decode data out maxsz).
 Proof. intros; unfold sc_decode; apply decode_with_safe_max; auto. apply nonuncompress_safe. Qed.
 
-(* the build with zlib: the contract of uncompress does not depend on the capacity, so the result
-   holds for every input, every descriptor and every maximum *)
+(* the build with zlib: uncompress needs `size` bytes at the destination, which an owner without a
+   maximum has only when the declared size is at most 2^63 (OWNER_MAX); under alloc_ok it is *)
 Section ZlibDecode.
   Variable inflate : list Z -> Z -> option (list Z).
   Hypothesis inflate_bytes : forall src size d, inflate src size = Some d -> bytes d.
 
   Theorem decode_zlib_safe data out maxsz :
+    bytes data -> len data < BIG -> out_ok out -> 0 <= maxsz -> alloc_ok data out maxsz ->
+    decode_post out maxsz (sc_decode_with (zlib_unc inflate) data out maxsz).
+  Proof. intros. apply decode_with_safe; auto. apply zlib_unc_safe. exact inflate_bytes. Qed.
+
+  (* sharper: the only thing the zlib build needs is that the owner really got `size` bytes *)
+  Theorem decode_zlib_safe_owner_max data out maxsz :
     bytes data -> len data < BIG -> out_ok out -> 0 <= maxsz ->
+    (o_owner out = true -> hdr_size data <= OWNER_MAX) ->
     decode_post out maxsz (sc_decode_with (zlib_unc inflate) data out maxsz).
   Proof.
     intros. apply (decode_with_safe_lim (fun _ => True)); auto.
     apply zlib_unc_safe_lim. exact inflate_bytes.
   Qed.
+
+  Corollary decode_zlib_safe_view data out maxsz :
+    bytes data -> len data < BIG -> out_ok out -> 0 <= maxsz -> o_owner out = false ->
+    decode_post out maxsz (sc_decode_with (zlib_unc inflate) data out maxsz).
+  Proof. intros. apply decode_with_safe_view; auto. apply zlib_unc_safe. exact inflate_bytes. Qed.
+
+  Corollary decode_zlib_safe_max data out maxsz :
+    bytes data -> len data < BIG -> out_ok out -> 0 < maxsz < BIG ->
+    decode_post out maxsz (sc_decode_with (zlib_unc inflate) data out maxsz).
+  Proof. intros. apply decode_with_safe_max; auto. apply zlib_unc_safe. exact inflate_bytes. Qed.
 End ZlibDecode.
 
 (* ---- the output is consistent with the header that sc_io_decode_info reports ------------------------ *)
@@ -443,7 +474,8 @@ Lemma decode_ok_inv unc data out maxsz n b : sc_decode_with unc data out maxsz =
   len data <> 0 /\ dec_guard_short (len data) (dec_base64_lines (len data)) = false /\
   exists comp ocnt, dec_all data = Ok (comp, ocnt) /\ 9 <= ocnt /\ rd comp 8 = Ok 122 /\
     n = hdr_size data / o_esz out /\ hdr_size data mod o_esz out = 0 /\
-    (maxsz <= 0 \/ hdr_size data <= maxsz).
+    (maxsz <= 0 \/ hdr_size data <= maxsz) /\
+    exists src cap nil, unc src (hdr_size data) cap nil = Ok b.
 Proof.
   unfold sc_decode_with. intros H.
   destruct (Z.eqb_spec (len data) 0) as [|Hne]; [discriminate|]. split; [exact Hne|].
@@ -466,8 +498,9 @@ Proof.
   destruct (Z.ltb_spec 0 maxsz); destruct (Z.ltb_spec maxsz size); cbn [andb] in H; try discriminate;
   (destruct (negb (o_owner out) && (u64 (o_cnt out * o_esz out) <? size)); [discriminate|];
    destruct (slice comp 9 (u64 (ocnt - 9))) as [src| | |]; try discriminate; cbn [bind] in H;
-   destruct (unc src size _ _) as [bb| | |]; try discriminate; cbn [bind] in H;
-   inversion H; split; [reflexivity|]; split; [exact Hmod|lia]).
+   destruct (unc src size _ _) as [bb| | |] eqn:Eu; try discriminate; cbn [bind] in H;
+   inversion H; split; [reflexivity|]; split; [exact Hmod|]; split; [lia|];
+   subst bb; eauto).
 Qed.
 
 Theorem decode_info_consistent unc data out maxsz n b sz fc :
@@ -476,7 +509,7 @@ Theorem decode_info_consistent unc data out maxsz n b sz fc :
   sz = n * o_esz out /\ sz = hdr_size data /\ fc = 122.
 Proof.
   intros HE Hesz Hd Hi. pose proof (len_nonneg data) as Hn.
-  destruct (decode_ok_inv _ _ _ _ _ _ Hd) as (Hne & Hg & comp & ocnt & Ha & H9 & Hfc & Hnn & Hmod & _).
+  destruct (decode_ok_inv _ _ _ _ _ _ Hd) as (Hne & Hg & comp & ocnt & Ha & H9 & Hfc & Hnn & Hmod & _ & _).
   destruct (dec_all_first data comp ocnt ltac:(lia) Hg Ha H9) as (m & rest & Hcomp & Hlen & Hm & H12).
   pose proof (dec_all_safe data ltac:(lia) Hg) as Hs. rewrite Ha in Hs. cbn [res_safe lines_post] in Hs.
   destruct Hs as (Hoc & _ & _).
@@ -518,6 +551,7 @@ Qed.
 Theorem decode_consistent_with_info_lim (capP : Z -> Prop) unc data out maxsz n b sz fc :
   unc_safe_lim capP unc -> bytes data -> len data < BIG -> out_ok out -> 0 <= maxsz ->
   ((maxsz = 0 \/ hdr_size data <= maxsz) ->
+   (o_owner out = true -> hdr_size data <= OWNER_MAX) /\
    capP (if o_owner out then hdr_size data else o_cnt out * o_esz out)) ->
   sc_decode_with unc data out maxsz = Ok (n, b) -> sc_decode_info data = Ok (sz, fc) ->
   sz = len b /\ fc = 122.
@@ -536,7 +570,9 @@ Theorem decode_consistent_with_info unc data out maxsz n b sz fc :
 Proof.
   intros Hunc Hb HE Hout Hmax Halloc.
   apply (decode_consistent_with_info_lim (fun cap => cap < BIG)); auto; try (now apply unc_safe_is_lim).
-  intros Hm. destruct (o_owner out) eqn:Ho; [|apply Hout]. destruct (Halloc Ho); lia.
+  intros Hm. unfold OWNER_MAX. destruct (o_owner out) eqn:Ho.
+  - assert (hdr_size data < BIG) by (destruct (Halloc Ho); lia). unfold BIG in *. split; [intros _|]; lia.
+  - split; [discriminate|apply Hout].
 Qed.
 
 Section ZlibConsistent.
@@ -548,8 +584,13 @@ Section ZlibConsistent.
     sc_decode_with (zlib_unc inflate) data out maxsz = Ok (n, b) -> sc_decode_info data = Ok (sz, fc) ->
     sz = len b /\ fc = 122.
   Proof.
-    intros. eapply (decode_consistent_with_info_lim (fun _ => True)); eauto.
-    apply zlib_unc_safe_lim. exact inflate_bytes.
+    intros _ HE Hout _ Hd Hi.
+    destruct (decode_info_consistent _ data out maxsz n b sz fc HE (proj1 Hout) Hd Hi) as (_ & H1 & H2).
+    split; [|exact H2]. rewrite H1.
+    destruct (decode_ok_inv _ _ _ _ _ _ Hd) as (_ & _ & comp & ocnt & _ & _ & _ & _ & _ & _ & src & cap & nil & Eu).
+    unfold zlib_unc in Eu. destruct (cap <? hdr_size data); [discriminate|].
+    destruct (inflate src (hdr_size data)) as [d|]; [|discriminate].
+    destruct (Z.eqb_spec (len d) (hdr_size data)); [|discriminate]. congruence.
   Qed.
 End ZlibConsistent.
 
@@ -568,3 +609,38 @@ Example ex_decode_max : sc_decode ex_data (mkOut true 1 0) 2 = Err (-1).
 Proof. vm_compute. reflexivity. Qed.
 Example ex_info : sc_decode_info ex_data = Ok (3, 122) /\ hdr_size ex_data = 3.
 Proof. vm_compute. split; reflexivity. Qed.
+
+(* ---- without the guard the model does leave its buffer (defect: declared size over 2^63) ------------- *)
+(* armor 61 ([128;0;0;0;0;0;0;8] ++ [122] ++ [120;218;75;76;4;0;1;37;0;195]): header size 2^63 + 8,
+   format 'z', the zlib stream of "aa".  An owner is resized to ONE byte (owner_capacity) and the
+   decompressor writes the second byte behind it. *)
+Definition refute_text : list Z :=
+  [103; 65; 65; 65; 65; 65; 65; 65; 65; 65; 104; 54; 101; 78; 112; 76; 84; 65; 81; 65; 65; 83; 85; 65;
+   119; 119; 61; 61; 61; 10; 0].
+Definition refute_out : outdesc := mkOut true 1 0.
+
+Lemma refute_text_hdr : hdr_size refute_text = 9223372036854775816.
+Proof. vm_compute. reflexivity. Qed.
+
+Lemma refute_not_alloc_ok : ~ alloc_ok refute_text refute_out 0.
+Proof.
+  intros H. destruct (H eq_refl) as [H1|H1]; [lia|].
+  rewrite refute_text_hdr in H1. unfold BIG in H1. lia.
+Qed.
+
+Theorem decode_unguarded_refuted :
+  exists data out, bytes data /\ len data < BIG /\ out_ok out /\ ~ alloc_ok data out 0 /\
+                   sc_decode data out 0 = Oob.
+Proof.
+  exists refute_text, refute_out. split; [|split; [|split; [|split]]].
+  - unfold refute_text, bytes. repeat (constructor; [unfold byte; lia|]). constructor.
+  - vm_compute. reflexivity.
+  - unfold out_ok, refute_out, BIG; cbn. lia.
+  - exact refute_not_alloc_ok.
+  - vm_compute. reflexivity.
+Qed.
+
+(* the build with zlib: uncompress is handed a one-byte destination for 2^63 + 8 bytes of output *)
+Theorem decode_zlib_unguarded_refuted inflate :
+  sc_decode_with (zlib_unc inflate) refute_text refute_out 0 = Oob.
+Proof. vm_compute. reflexivity. Qed.
